@@ -88,6 +88,11 @@ class PoolProp(Prop):
                 else:
                     hist.append(self.gen_call(rng, 5))
         case = dict(cfg=cfg, hist=hist, seed=rng.randrange(1 << 30), policy=rng.choice(POLICIES))
+        if self.focus == "C04":
+            if rng.random() < 0.3:
+                case["exc"] = 1                  # the body of the with-statement raises after the history
+            if rng.random() < 0.25:
+                case["join_timeout"] = 5         # a (generous) join timeout: must not shorten any other wait
         if self.focus == "C04" and rng.random() < 0.4:
             f = {}
             if rng.random() < 0.4:
